@@ -144,6 +144,10 @@ class Tr:
                 return ("(negb (is_some %s))" if op is ast.Is else "(is_some %s)") % t, "B"
             a, ta = self.expr(e.left, env, hoist)
             b, tb = self.expr(e.comparators[0], env, hoist)
+            if op in (ast.In, ast.NotIn):
+                if ta == "str" and tb == "dict":
+                    return ("(dict_mem %s %s)" if op is ast.In else "(negb (dict_mem %s %s))") % (a, b), "B"
+                raise Unsupported("membership of %s in %s" % (ta, tb))
             if ta == "Z" and tb == "Z":
                 fmt = {ast.Lt: "(%s <? %s)", ast.LtE: "(%s <=? %s)", ast.Gt: "(%s >? %s)", ast.GtE: "(%s >=? %s)",
                        ast.Eq: "(%s =? %s)", ast.NotEq: "(negb (%s =? %s))"}.get(op)
@@ -215,6 +219,8 @@ class Tr:
                 return "(nframes %s)" % t, "Z"
             if ty == "siglen":
                 return t, "Z"
+            if ty.startswith("list:"):
+                return "(Zlength %s)" % t, "Z"
             raise Unsupported("len of %s" % ty)
         if fname in ("max", "min") and len(e.args) == 2 and not kw:
             a, ta = self.expr(e.args[0], env, hoist)
@@ -234,9 +240,30 @@ class Tr:
             if ta == "sig":
                 return "(pt_compute %s %s)" % (env[fname][0], a), "feat"
             raise Unsupported("computer applied to %s" % ta)
+        # " ".join(ls[k:])
+        if isinstance(f, ast.Attribute) and f.attr == "join" and isinstance(f.value, ast.Constant) and f.value.value == " " \
+                and len(e.args) == 1 and not kw:
+            a = e.args[0]
+            if isinstance(a, ast.Subscript) and isinstance(a.slice, ast.Slice) and a.slice.upper is None and a.slice.step is None \
+                    and isinstance(a.slice.lower, ast.Constant) and isinstance(a.slice.lower.value, int) and a.slice.lower.value >= 0:
+                t, ty = self.expr(a.value, env, hoist)
+                if ty == "list:str":
+                    return "(join_sp (py_slice_from %s %d))" % (t, a.slice.lower.value), "str"
+            t, ty = self.expr(a, env, hoist)
+            if ty == "list:str":
+                return "(join_sp %s)" % t, "str"
+            raise Unsupported("join of %s" % ty)
         if isinstance(f, ast.Attribute):
             meth = f.attr
             recv, tr = self.expr(f.value, env, hoist)
+            if tr == "str" and meth == "strip" and not e.args and not kw:
+                return "(strip %s)" % recv, "str"
+            if tr == "str" and meth == "rstrip" and len(e.args) == 1 and not kw \
+                    and isinstance(e.args[0], ast.Constant) and e.args[0].value == "\n":
+                return "(rstrip_nl %s)" % recv, "str"
+            if tr == "str" and meth == "split" and len(e.args) == 1 and not kw \
+                    and isinstance(e.args[0], ast.Constant) and e.args[0].value == " ":
+                return "(split_sp %s)" % recv, "list:str"
             if meth == "astype" and len(e.args) == 1:
                 d = dotted(e.args[0])
                 if tr == "sig32" and d == "np.float64" and set(kw) <= {"copy"}:
@@ -274,6 +301,8 @@ class Tr:
             return "(truthy_Z %s)" % t
         if ty == "optZ":
             return "(truthy_optZ %s)" % t
+        if ty == "str":
+            return "(truthy_str %s)" % t
         raise Unsupported("truth value of %s" % ty)
 
     # ------------------------------------------------------------------ conditions
@@ -339,6 +368,8 @@ class Tr:
             if isinstance(v, ast.Call):
                 n = dotted(v.func) or ""
                 if n.split(".")[0] in ("logger", "warnings", "logging"):
+                    return True
+                if n == "print" and any(k.arg == "file" and dotted(k.value) == "sys.stderr" for k in v.keywords):
                     return True
         if isinstance(s, ast.If):
             return all(self.skippable(x) for x in s.body + s.orelse) and self.pure_test(s.test)
@@ -481,6 +512,12 @@ class Tr:
                     inner = "match %s with\n| None => %s\n| Some %s => %s\nend" % (term, self.mode.on_raise(exn, env), pat, cont(env2))
                     return self.wrap(hoist, inner, env)
                 return self.wrap(hoist, "let '%s := %s in\n%s" % (pat, t, cont(env2)), env)
+            if isinstance(tg, ast.Subscript) and isinstance(tg.value, ast.Name) and not hoist:
+                d, td = self.lookup(tg.value.id, env)
+                k, tk = self.expr(tg.slice, env, hoist)
+                if td == "dict" and tk == "str" and ty == "str" and not hoist:
+                    env2 = self.bind(tg.value.id, "dict", env)
+                    return "let %s := dict_set %s %s %s in\n%s" % (tg.value.id, d, k, t, cont(env2))
             raise Unsupported("assignment target %s" % ast.dump(tg)[:60])
         if isinstance(s, ast.Expr) and isinstance(s.value, ast.Call):
             c = s.value
@@ -787,6 +824,113 @@ def gen_torch_item(tree):
     return "\n".join(out)
 
 
+class MapLoopMode(Mode):
+    world = None
+
+    def on_continue(self, env):
+        return "torch_map_loop lines' (line_no + 1) %s" % env["utt2path"][0]
+
+    def on_return(self, tr, value, env):
+        if isinstance(value, ast.Constant) and isinstance(value.value, int) and not isinstance(value.value, bool):
+            return "MapExit %s" % zlit(value.value)
+        raise Unsupported("return inside the map loop: %s" % ast.unparse(value)[:40])
+
+    def on_raise(self, exn, env):
+        return "MapRaise %s" % exn
+
+
+class PureMode(Mode):
+    world = None
+
+    def on_raise(self, exn, env):
+        raise Unsupported("cannot raise here")
+
+
+PINNED = [
+    # statements of signals_to_torch_feat_dir that coq/C09/Tools.v models by hand
+    "utt2idx = dict(((utt_id, idx) for idx, utt_id in enumerate(utt2path)))",
+    "dataset = _FeatureProcessorDataset(utt2path, preprocessors, computer, postprocessors, options.channel, options.force_as, seed, tuple((utt2idx[utt_id] for utt_id in utt2path)))",
+    "loader = torch.utils.data.DataLoader(dataset, num_workers=options.num_workers)",
+    "utt_id, feat = (utt_ids[0], feats[0])",
+    "torch.save(feat, os.path.join(options.dir, options.file_prefix + utt_id + options.file_suffix))",
+    "print(utt_id, file=options.manifest, flush=True)",
+    "computer = PyTorchSTFTFrameComputer.from_stft_frame_computer(computer)",
+    "computer = PyTorchSIFrameComputer.from_si_frame_computer(computer)",
+    "preprocessors[i] = PyTorchDither.from_dither(preprocessor)",
+    "preprocessors[i] = PyTorchPreemphasize.from_preemphasize(preprocessor)",
+    "postprocessors = [PyTorchPostProcessorWrapper.from_postprocessor(p) for p in postprocessors]",
+    "return 0",
+]
+
+
+def gen_torch_main(tree):
+    fn = find_func(tree, "signals_to_torch_feat_dir")
+    body = fn.body
+    out = []
+    # --- the map file loop
+    loops = [i for i, s in enumerate(body) if isinstance(s, ast.For) and ast.unparse(s.iter) == "enumerate(options.map)"]
+    if len(loops) != 1:
+        raise Unsupported("expected one loop over enumerate(options.map)")
+    li = loops[0]
+    loop = body[li]
+    if ast.unparse(loop.target) != "(line_no, line)" or loop.orelse or ast.unparse(body[li - 1]) != "utt2path = dict()":
+        raise Unsupported("map loop header")
+    env = {"line_no": ("line_no", "Z"), "line": ("line", "str"), "utt2path": ("utt2path", "dict")}
+    mode = MapLoopMode()
+    tr = Tr(mode)
+    term = tr.block(list(loop.body), env, mode.on_continue)
+    out.append("(* signals_to_torch_feat_dir, lines %d-%d: reading the map file *)" % (loop.lineno, loop.end_lineno))
+    out.append("Fixpoint torch_map_loop (lines : list string) (line_no : Z) (utt2path : list (string * string))\n"
+               "    {struct lines} : MapResult :=\n  match lines with\n  | [] => MapOk utt2path\n  | line :: lines' =>\n%s\n  end." % indent(term, 4))
+    out.append("")
+    # --- the manifest
+    mans = [s for s in body if isinstance(s, ast.If) and ast.unparse(s.test) == "options.manifest is not None"
+            and any(isinstance(x, ast.For) for x in s.body)]
+    if len(mans) != 1 or mans[0].orelse:
+        raise Unsupported("manifest filtering statement")
+    mb = mans[0].body
+    if len(mb) != 2 or ast.unparse(mb[0]) != "options.manifest.seek(0)" or not isinstance(mb[1], ast.For):
+        raise Unsupported("manifest filtering body")
+    f = mb[1]
+    if ast.unparse(f.target) != "line" or ast.unparse(f.iter) != "options.manifest" or len(f.body) != 1 or f.orelse:
+        raise Unsupported("manifest loop")
+    c = f.body[0]
+    if not (isinstance(c, ast.Expr) and isinstance(c.value, ast.Call) and dotted(c.value.func) == "utt2path.pop"
+            and len(c.value.args) == 2 and isinstance(c.value.args[1], ast.Constant) and c.value.args[1].value is None):
+        raise Unsupported("manifest loop body")
+    key, tk = Tr(PureMode()).expr(c.value.args[0], {"line": ("line", "str")}, [])
+    if tk != "str":
+        raise Unsupported("manifest key of type %s" % tk)
+    if body.index(mans[0]) < li:
+        raise Unsupported("manifest filtered before the map is read")
+    out.append("(* signals_to_torch_feat_dir, line %d: the id a manifest line stands for *)" % c.lineno)
+    out.append("Definition torch_manifest_key (line : string) : string :=\n  %s." % key)
+    out.append("")
+    # --- the seed
+    seeds = [s for s in body if isinstance(s, ast.If) and ast.unparse(s.test) in ("options.seed is None", "options.seed is not None")]
+    if len(seeds) != 1:
+        raise Unsupported("seed choice statement")
+    class Fresh(ast.NodeTransformer):
+        def visit_Call(self, node):
+            if ast.unparse(node) == "np.random.randint(np.iinfo(np.int32).max)":
+                return ast.copy_location(ast.Name(id="fresh__", ctx=ast.Load()), node)
+            return self.generic_visit(node)
+    st = Fresh().visit(seeds[0])
+    tr = Tr(PureMode())
+    env = {"options.seed": ("options_seed", "optZ"), "fresh__": ("fresh", "Z")}
+    e2 = tr.pure_eval([st], env) if tr.is_pure([st]) else None
+    if e2 is None or "seed" not in e2 or e2["seed"][1] != "Z":
+        raise Unsupported("seed choice is not a pure assignment of an int")
+    out.append("(* signals_to_torch_feat_dir, lines %d-%d: fresh = np.random.randint(2^31 - 1) *)" % (seeds[0].lineno, seeds[0].end_lineno))
+    out.append("Definition torch_seed_choice (options_seed : option Z) (fresh : Z) : Z :=\n  %s." % e2["seed"][0])
+    # --- what the hand-written entry point relies on
+    src = [ast.unparse(x) for x in ast.walk(fn) if isinstance(x, ast.stmt)]
+    for pin in PINNED:
+        if pin not in src:
+            raise Unsupported("signals_to_torch_feat_dir no longer contains: %s" % pin)
+    return "\n".join(out)
+
+
 # ---------------------------------------------------------------------- STFT framing plans
 class PlanMode(Mode):
     world = None
@@ -813,7 +957,8 @@ def plan_of(stmts, env, what):
         raise Unsupported("%s: no 'if pad_left or pad_right' statement" % what)
     start = None
     for i, s in enumerate(stmts[:idx]):
-        if isinstance(s, ast.If) and len(s.body) == 1 and isinstance(s.body[0], ast.Return) and "frame_length // 2" in ast.unparse(s.test):
+        if isinstance(s, ast.If) and len(s.body) == 1 and isinstance(s.body[0], ast.Return) and not s.orelse \
+                and ("empty((0," in ast.unparse(s.body[0])):
             start = i
     if start is None:
         raise Unsupported("%s: too-short gate not found" % what)
@@ -903,6 +1048,7 @@ def translate(src_dir):
     for f in ("command_line.py", "compute.py", "torch.py"):
         trees[f] = ast.parse(open(os.path.join(src_dir, f)).read())
     parts = [HEADER, gen_kaldi(trees["command_line.py"]), "", gen_torch_item(trees["command_line.py"]), "",
+             gen_torch_main(trees["command_line.py"]), "",
              gen_plans(trees["compute.py"], trees["torch.py"]), ""]
     return "\n".join(parts)
 
